@@ -196,10 +196,22 @@ impl Inp {
     }
 }
 
-#[derive(Debug, Clone, Default, PartialEq, Eq)]
+#[derive(Debug, Clone, Default)]
 pub struct InpInternPool {
     store: IndexSet<Inp>,
 }
+
+// InpIds are positions in the pool, so two pools are interchangeable only if they hold the same inputs *in the same
+// order*.  IndexSet's own == is plain set equality: it made e.g. the subword DFAs of `<A>,<B>` and `<B>,<A>` (same
+// transitions over ids, same set of inputs) compare equal, and whether DFAInternPool then merged them into one
+// depended on a collision in its randomly seeded hash table, i.e. differed from run to run.
+impl PartialEq for InpInternPool {
+    fn eq(&self, other: &Self) -> bool {
+        self.store.len() == other.store.len() && self.store.iter().eq(other.store.iter())
+    }
+}
+
+impl Eq for InpInternPool {}
 
 impl std::hash::Hash for InpInternPool {
     fn hash<H: std::hash::Hasher>(&self, state: &mut H) {
